@@ -117,11 +117,10 @@ class LoopCtx(object):
         for nm in self.assigned:
             if nm in new:
                 out.append(new[nm])
-            elif nm in self.spec.temps:
-                out.append(Undefined())
             else:
-                raise EngineEscape('loop %d assigns local %r but its cut neither havocs it nor declares it a temporary'
-                                   % (self.ordinal, nm))
+                # a declared temporary, or a local the cut does not know (the body changed): dead at the loop head as far as the cut is
+                # concerned - any use before it is assigned again is an engine escape (sound: Undefined answers nothing)
+                out.append(Undefined())
         st2 = dict(st)
         st2.update(zip(self.assigned, out))
         core.assume(self.spec.invariant(self, st2))
